@@ -240,11 +240,11 @@ def i_LUI(ins, fmap):
         fmap[dst] = fmap(src1)
 
 
-@__npc
 def i_AUIPC(ins, fmap):
     dst, src1 = ins.operands
     if dst is not zero:
         fmap[dst] = fmap(pc + src1)
+    fmap[pc] = fmap(pc + ins.length)
 
 
 def i_JAL(ins, fmap):
